@@ -44,6 +44,51 @@ static size_t fdiff(const uint64_t *a, const uint64_t *b, size_t n) {
     return n;
 }
 
+/* The adaptive meta is an OUTPUT: what it held before the call must not influence the bytes produced. The meta is
+ * first filled by encoding a different array of the SAME length (values shifted / reversed), the way a caller
+ * re-using one meta for equal-sized blocks would, then the real array is encoded with it and the bytes are
+ * compared with the fresh-meta encoding. type < 0 = automatic selection. */
+static void residue_check(const char *tag, int type, const uint64_t *v, size_t n, const uint8_t *ref, size_t reflen, size_t cap) {
+    if (n == 0) {
+        return;
+    }
+    for (int variant = 0; variant < 3; variant++) {
+        uint64_t *w = malloc(n * sizeof(uint64_t));
+        for (size_t i = 0; i < n; i++) {
+            w[i] = variant == 0 ? v[i] + 5000 : variant == 1 ? v[n - 1 - i] : (v[i] >> 1) + 3;
+        }
+        uint8_t *d1 = malloc(cap), *d2 = malloc(cap);
+        varintAdaptiveMeta m;
+        memset(&m, 0, sizeof(m));
+        if (type < 0) {
+            (void)varintAdaptiveEncode(d1, w, n, &m);
+        } else {
+            (void)varintAdaptiveEncodeWith(d1, w, n, (varintAdaptiveEncodingType)type, &m);
+        }
+        size_t l2 = type < 0 ? varintAdaptiveEncode(d2, v, n, &m)
+                             : varintAdaptiveEncodeWith(d2, v, n, (varintAdaptiveEncodingType)type, &m);
+        if (l2 != reflen || memcmp(d2, ref, reflen) != 0) {
+            mon("C06", "%s: encoding with a meta that was used before for another array of the same length gives "
+                "different bytes (%zu vs %zu, variant %d): the result depends on the meta's previous content", tag, l2, reflen, variant);
+            mon("C15", "%s: result depends on the previous content of the output meta (variant %d)", tag, variant);
+            free(d1); free(d2); free(w);
+            return;
+        }
+        free(d1); free(d2); free(w);
+    }
+}
+
+/* the decoder's own answer (count + values), for the correspondence with the model's Adaptive.decodeAll */
+static void show_decoded(const uint8_t *enc, size_t len, size_t n) {
+    uint8_t *e = exact_copy(enc, len);
+    uint64_t *o = oalloc(n);
+    size_t r = varintAdaptiveDecode(e, o, n, NULL);
+    out("r=%zu", r);
+    show("d", (const uint8_t *)o, (r < n ? r : n) * 8);
+    free(o);
+    free(e);
+}
+
 /* decode checks shared by both ops */
 static void decode_checks(const char *tag, int type, const uint8_t *enc, size_t len, const uint64_t *v, size_t n) {
     uint8_t *e = exact_copy(enc, len);
@@ -136,6 +181,8 @@ static void op_adaptive_rt(const VhLine *l) {
         }
         if (n) {
             decode_checks("adaptive", (int)m.encodingType, d, len, v, n);
+            residue_check("adaptive", -1, v, n, d, len, adv + CANARY);
+            show_decoded(d, len, n);
         }
     }
     free(d);
@@ -166,6 +213,8 @@ static void op_adaptive_with(const VhLine *l) {
                 (int)m.encodingType, m.originalCount, m.encodedSize, n, len);
         }
         decode_checks("adaptive.with", type, d, len, v, n);
+        residue_check("adaptive.with", type, v, n, d, len, adv + CANARY);
+        show_decoded(d, len, n);
     }
     free(d);
     free(v);
